@@ -17,6 +17,8 @@ let prims : prims = {
   b64e = (fun x -> oracle1 "b64e" x);
   b64d = (fun x -> match tag_split (oracle1 "b64d" x) with (0, p) -> Some p | _ -> None);
   utf8_ok = (fun x -> match tag_split (oracle1 "utf8_ok" x) with (1, _) -> true | _ -> false);
+  addr_of_seed = (fun x -> oracle1 "addr_of_seed" x);
+  addr_of_pub = (fun x -> oracle1 "addr_of_pub" x);
   seed_ok = (fun x -> match tag_split (oracle1 "seed_ok" x) with (1, _) -> true | _ -> false);
   xparse = (fun x -> match tag_split (oracle1 "xparse" x) with
                      | (0, c) -> XOk c | (1, _) -> XValue | _ -> XBase58);
